@@ -4,7 +4,7 @@ from common import Check
 
 class ScriptSock:
     def __init__(self): self.chunks = []; self.sent = b""
-    def recv(self, n):
+    def recv(self, n, flags=0):
         assert self.chunks, "recv with nothing scripted"
         c = self.chunks.pop(0)
         assert len(c) <= n
@@ -15,13 +15,15 @@ class ScriptSock:
     def fileno(self): return -1
     def getpeername(self): return ("peer", 6633)
 
-def segment(stream, cuts):
+CAP = {"ctl": 2048, "sw": 8192}          # Connection.read recv(2048); RecocoIOLoop._BUF_SIZE = 8192
+
+def segment(stream, cuts, cap=2048):
     cuts = sorted(set(c for c in cuts if 0 < c < len(stream)))
     out, prev = [], 0
     for c in cuts + [len(stream)]:
         piece = stream[prev:c]; prev = c
-        while len(piece) > 2048:                 # the controller never reads more than 2048 bytes at once
-            out.append(piece[:2048]); piece = piece[2048:]
+        while len(piece) > cap:                  # a read never returns more than the size asked for
+            out.append(piece[:cap]); piece = piece[cap:]
         if piece: out.append(piece)
     return out
 
@@ -31,7 +33,7 @@ class C02(Check):
     lean_targets = ["drv_c02"]
     driver = "drv_c02"
     theorems = ["Pox.C02.ctl_framing", "Pox.C02.ctl_prefix", "Pox.C02.sw_framing", "Pox.C02.sw_prefix", "Pox.C02.slice_framing"]
-    anchors = [("pox/openflow/of_01.py", 896, 950), ("pox/datapaths/switch.py", 1119, 1174), ("pox/lib/ioworker/__init__.py", 204, 226)]
+    anchors = [("pox/openflow/of_01.py", 898, 962), ("pox/datapaths/switch.py", 1144, 1211), ("pox/lib/ioworker/__init__.py", 108, 126), ("pox/lib/ioworker/__init__.py", 204, 226)]
     trusted_base = ["model Model/Framing.lean hand-written from of_01.Connection.read and OFConnection.read; tied by this correspondence run",
                     "decoder abstracted as U (consumes exactly a well-formed message: that is C01); the driver instantiates U with the length-driven slice decoder (theorem slice_framing)"]
     assumptions = ["message handlers do not disconnect the connection in the middle of a read (then Connection.read stops dispatching: that path is C09's)", "chunks are never empty (an empty recv is end-of-stream in the real code)", "recv never returns more than the 2048 bytes asked for"]
@@ -50,7 +52,8 @@ class C02(Check):
         import pox.openflow.of_01 as of_01, pox.openflow.libopenflow_01 as of
         from pox.datapaths.switch import OFConnection
         from pox.lib.ioworker import IOWorker
-        self.of_01, self.of, self.OFConnection, self.IOWorker = of_01, of, OFConnection, IOWorker
+        import pox.lib.ioworker as iow
+        self.of_01, self.of, self.OFConnection, self.IOWorker, self.iow = of_01, of, OFConnection, IOWorker, iow
 
     # -- generators
     def _stream(self, rng, n, small=True):
@@ -87,6 +90,16 @@ class C02(Check):
             big = self._stream(rng, 12, small=False)
             for c in (2047, 2048, 2049, 4096):
                 cases.append({"side": side, "msgs": big, "cuts": [c]})
+            # a message close to the 64 KiB limit followed by small ones, read at the full read size and at odd sizes
+            huge = [self.of.ofp_packet_in(xid=5, in_port=1, data=bytes((i * 11) & 0xff for i in range(64000))).pack().hex(),
+                    self.of.ofp_echo_request(xid=6, body=b"abc").pack().hex(), self.of.ofp_barrier_reply(xid=7).pack().hex(),
+                    self.of.ofp_echo_request(xid=8, body=bytes(65535 - 8)).pack().hex(), self.of.ofp_hello(xid=9).pack().hex()]
+            for cuts in ([], [500], [1000], [1536], [63000], [64017], [64018, 64019]):
+                cases.append({"side": side, "msgs": huge, "cuts": cuts})
+            # reads that fill the read buffer exactly (2048 / 8192) and then silence
+            fill = [self.of.ofp_echo_request(xid=i, body=bytes([i & 0xff] * 120)).pack().hex() for i in range(128)]   # 128 x 128 = 16384 bytes
+            for cuts in ([], [8192], [2048, 4096], [8191], [8193]):
+                cases.append({"side": side, "msgs": fill, "cuts": cuts})
             # many complete messages inside ONE read (a burst): 70, 130, 300 and 700 short messages without any cut,
             # and the same bursts followed by a straggler
             tiny = [self.of.ofp_echo_request(xid=i, body=bytes([i & 0xff] * (i % 3))).pack().hex() for i in range(700)]
@@ -117,7 +130,7 @@ class C02(Check):
     # -- implementation
     def impl(self, case):
         stream = b"".join(bytes.fromhex(m) for m in case["msgs"])
-        chunks = segment(stream, case["cuts"])
+        chunks = segment(stream, case["cuts"], CAP[case["side"]])
         delivered, counts, last = [], [], [None]
         def wrap(u):
             if u is None: return None
@@ -142,23 +155,28 @@ class C02(Check):
                 counts.append(len(delivered))
             buf = bytes(con.buf).hex()
         else:
-            w = self.IOWorker(); w.socket = ScriptSock()
+            # the real RecocoIOLoop generator serves the worker: every chunk is one socket read in IOWorker._do_recv
+            loop = self.iow.RecocoIOLoop()
+            sock = ScriptSock()
+            w = loop.new_worker(sock)
             ofc = self.OFConnection(w)
             ofc.unpackers = [wrap(u) for u in ofc.unpackers]
             ofc.set_message_handler(lambda c, m: delivered.append(last[0].hex()))
+            g = loop.run(); next(g)
             for ch in chunks:
+                sock.chunks.append(ch)
                 try:
-                    w._push_receive_data(ch)
-                except Exception as e:
-                    status = "dead:" + type(e).__name__; break
-                if w.closed: status = "closed"; break
+                    g.send(([w], [], []))
+                except StopIteration:
+                    status = "dead:loop"; break
+                if w.closed or w._shutdown_send: status = "closed"; break
                 counts.append(len(delivered))
             buf = bytes(w.receive_buf).hex()
         return {"delivered": delivered, "counts": counts, "buf": buf, "status": status, "chunks": [c.hex() for c in chunks]}
 
     def model_request(self, case):
         stream = b"".join(bytes.fromhex(m) for m in case["msgs"])
-        return {"side": case["side"], "chunks": [c.hex() for c in segment(stream, case["cuts"])]}
+        return {"side": case["side"], "chunks": [c.hex() for c in segment(stream, case["cuts"], CAP[case["side"]])]}
 
     def impl_view(self, case, obs):
         return {k: obs[k] for k in ("delivered", "counts", "buf", "status")}
